@@ -148,6 +148,11 @@ STRUCT = [
      'Starting Heat Sale Price': '0.2', 'Ending Heat Sale Price': '0.2', 'Starting Cooling Sale Price': '0.2', 'Ending Cooling Sale Price': '0.2'},
     {'Do S-DAC-GT Calculations': 'True'},
     {'Do S-DAC-GT Calculations': 'True', 'S-DAC-GT CAPEX': '2000', 'S-DAC-GT OPEX': '200', 'S-DAC-GT Electrical Energy': '1000', 'S-DAC-GT Thermal Energy': '2000'},
+    # every S-DAC-GT input off its default (an echo line that reads the default instead of the value shows)
+    {'Do S-DAC-GT Calculations': 'True', 'WACC': '7.3', 'S-DAC-GT CAPEX': '1777', 'S-DAC-GT OPEX': '83', 'S-DAC-GT Electrical Energy': '1234', 'S-DAC-GT Thermal Energy': '1789',
+     'S-DAC-GT Natural Gas Price': '7.7', 'S-DAC-GT CO2 Intensity of Electricity': '0.31', 'S-DAC-GT CO2 Intensity of Natural Gas': '0.23',
+     'S-DAC-GT Natural Gas Energy Density': '301.5', 'S-DAC-GT CAPEX Multiplier': '1.3', 'S-DAC-GT OPEX Multiplier': '0.8', 'S-DAC-GT Thermal Energy Multiplier': '1.2',
+     'S-DAC-GT CO2 Transportation Cost': '13', 'S-DAC-GT CO2 Storage Cost': '17', 'S-DAC-GT CO2 Percent Energy Devoted To Process': '0.35'},
     {'Production Tax Credit Electricity': '0.04', 'Production Tax Credit Heat': '0.5', 'Production Tax Credit Cooling': '0.5', 'Production Tax Credit Duration': '2'},
     # both extensions in one run (each has its own economics, outputs and report block)
     {**{k: v for k, v in ADDON_GAIN.items()}, 'Do S-DAC-GT Calculations': 'True', 'S-DAC-GT CAPEX': '1400', 'S-DAC-GT OPEX': '130'},
